@@ -227,7 +227,8 @@ def write_omen(d, m, enc='utf-8'):
     if ks is None:
         ks = {L: len(omen_level_set(m, L)) for L in range(1, m.get('top_level', 10) + 1)}
         ks = {L: n for L, n in ks.items() if n}
-    with open(os.path.join(d, 'omen_keyspace.txt'), 'w') as f:
+    # like the trainer: keyspace and per-level counts in the ruleset's encoding, LN.level and config.txt in the platform's
+    with codecs.open(os.path.join(d, 'omen_keyspace.txt'), 'w', encoding=enc) as f:
         for L, n in sorted(ks.items()):
             f.write('%d\t%d\n' % (L, n))
     op = m.get('omen_prob')
@@ -235,7 +236,7 @@ def write_omen(d, m, enc='utf-8'):
         # strictly descending so that every level is its own group
         op = [(L, 0.5 ** (i + 2)) for i, L in enumerate(sorted(ks))]
     write_list(os.path.join(d, 'pcfg_omen_prob.txt'), op, enc)
-    with open(os.path.join(d, 'omen_pws_per_level.txt'), 'w') as f:
+    with codecs.open(os.path.join(d, 'omen_pws_per_level.txt'), 'w', encoding=enc) as f:
         for L in sorted(ks):
             f.write('%d\t1\n' % L)
 
